@@ -482,3 +482,15 @@ def finish_proof_failures(ck, failures):
     correspondence/oracle search found no concrete input)"""
     if failures and not any(not nf for _, _, nf in ck.violations):
         ck.violation({'obligation': failures}, 'proof obligation no longer checks: ' + '; '.join(failures)[:500], nofail=True)
+
+
+def load_corpus(pid):
+    """minimised past failures / finding witnesses, replayed first on every run"""
+    d = os.path.join(VERIF, 'corpus', pid)
+    res = []
+    if os.path.isdir(d):
+        for f in sorted(os.listdir(d)):
+            if f.endswith('.json'):
+                v = json.load(open(os.path.join(d, f)))
+                res.extend(v if isinstance(v, list) else [v])
+    return res
